@@ -1,1 +1,192 @@
-/-! STUB — property C13 is not built yet. -/
+import Martian.Lemmas.Verify
+/-!
+C13 — verification reports exactly the unmet expectations since the last reset.
+
+All theorems are about the executable model `Martian.Verify` (Model/Verify.lean), which is tied to
+/repo by the correspondence run of `./check C13` and is parameterised by the facts regenerated
+from the source on every run (`Generated/Verify.lean`: the branch fields each of `filter.Filter`'s
+four walks visits, `MultiError.Add`'s unwrapping, the API-request guard of every verifier).
+They hold for every tree (any nesting of groups and filters, both branches, all verifier kinds,
+non-verifier modifiers that may fail), every exchange and every history — by structural induction
+on the tree and induction on the history. Data-race freedom is not expressible in this
+sequential model; see `facts_multierror_locked` and the race tier of the harness.
+-/
+namespace Martian.Props.C13
+open Martian Martian.Verify
+
+/-! ### facts the model is parameterised by (break when the source changes shape) -/
+
+/-- Each of `filter.Filter`'s Verify*/Reset* walks visits BOTH branch fields (F13a). -/
+theorem facts_filter_walks_visit_both_branches (side : Side) :
+    (true ∈ verifyVisits side ∧ false ∈ verifyVisits side ∧ (verifyVisits side).length = 2) ∧
+    (true ∈ resetVisits side ∧ false ∈ resetVisits side) := by
+  cases side <;> decide
+
+/-- Every verifier's Modify* leaves before recording when the request is an API request (F13b). -/
+theorem facts_verifiers_skip_api :
+    Generated.Verify.skipsApi.map (·.1) =
+      ["status.res", "header.req", "header.res", "method.req", "url.req", "qs.req", "failure.req", "pingback.req"] ∧
+    Generated.Verify.skipsApi.all (·.2) = true := by decide
+
+/-- Every method of `MultiError` takes the mutex first (F13c-Empty), and `Add` unwraps a nested
+`*MultiError`. Lock discipline of the verifiers' own fields is NOT covered (F13c-swap). -/
+theorem facts_multierror_locked :
+    Generated.Verify.multiErrorLocked = [("Error", true), ("Errors", true), ("Add", true), ("Empty", true)] ∧
+    Generated.Verify.multiErrorAddFlattens = true := by decide
+
+/-! ### histories -/
+
+theorem run_append (s : State) (h1 h2 : List Op) : s.run (h1 ++ h2) = (s.run h1).run h2 := by
+  simp [State.run, List.foldl_append]
+
+/-- The invariant carried along a history: the tree keeps its shape and every verifier holds
+exactly what the exchanges since the last reset that reached it call for. -/
+theorem run_invariant (c : State) : ∀ (h : List Op) (s : State) (ms : List Msg),
+    s.clear = c → s.req.tracks .req ms → s.res.tracks .res ms →
+    (s.run h).clear = c ∧ (s.run h).req.tracks .req (h.foldl sinceStep ms) ∧
+      (s.run h).res.tracks .res (h.foldl sinceStep ms)
+  | [], s, ms, hc, hq, hs => ⟨hc, hq, hs⟩
+  | op :: h, s, ms, hc, hq, hs => by
+    simp only [State.run, List.foldl_cons]
+    cases op with
+    | traffic m =>
+      refine run_invariant c h _ _ ?_ ?_ ?_
+      · rw [← hc]; simp [State.step, State.traffic, State.clear, T.clear_modify]
+      · exact T.tracks_modify .req m s.req ms hq
+      · exact T.tracks_modify .res m s.res ms hs
+    | query => exact run_invariant c h s ms hc hq hs
+    | reset =>
+      refine run_invariant c h _ _ ?_ ?_ ?_
+      · rw [← hc]; simp [State.step, State.reset, State.clear, T.reset_eq_clear, T.clear_clear]
+      · simpa [State.step, State.reset, T.reset_eq_clear, sinceStep] using T.tracks_clear .req s.req
+      · simpa [State.step, State.reset, T.reset_eq_clear, sinceStep] using T.tracks_clear .res s.res
+
+theorem fresh_tracks (s0 : State) (hf : s0.clear = s0) : s0.req.tracks .req [] ∧ s0.res.tracks .res [] := by
+  have hq : s0.req.clear = s0.req := congrArg State.req hf
+  have hs : s0.res.clear = s0.res := congrArg State.res hf
+  exact ⟨hq ▸ T.tracks_clear .req s0.req, hs ▸ T.tracks_clear .res s0.res⟩
+
+/-- **Main theorem.** From the initial state, after ANY history of exchanges, queries and resets,
+a verification query returns exactly the report demanded by `State.spec` for the exchanges since
+the last reset: per verifier, in tree order, one entry for each non-API exchange that reached
+it and did not meet its expectation — as a list equality, hence none lost, none duplicated,
+nested groups and filters flattened to one entry per failure. -/
+theorem query_is_failures_since_reset (s0 : State) (hf : s0.clear = s0) (h : List Op) :
+    (s0.run h).query = s0.spec (sinceReset h) := by
+  obtain ⟨hq, hs⟩ := fresh_tracks s0 hf
+  obtain ⟨hc, tq, ts⟩ := run_invariant s0 h s0 [] hf hq hs
+  have cq : (s0.run h).req.clear = s0.req := congrArg State.req hc
+  have cs : (s0.run h).res.clear = s0.res := congrArg State.res hc
+  simp only [State.query, State.spec, sinceReset]
+  rw [T.report_eq_spec .req _ _ tq, T.report_eq_spec .res _ _ ts,
+    ← T.spec_clear .req (s0.run h).req, ← T.spec_clear .res (s0.run h).res, cq, cs]
+
+/-- A configuration accepted by `martianhttp.Modifier` starts in the initial state … -/
+theorem install_fresh (c : Cfg) (s0 : State) (hi : c.install = some s0) : s0.clear = s0 := by
+  simp only [Cfg.install] at hi
+  split at hi
+  · rename_i q s hq hs
+    simp at hi; subst hi
+    have h1 : (q.getD .nop).clear = q.getD .nop := by
+      cases q with
+      | none => simp [T.clear]
+      | some x => simpa using Cfg.compile_fresh .req c x hq
+    have h2 : (s.getD .nop).clear = s.getD .nop := by
+      cases s with
+      | none => simp [T.clear]
+      | some x => simpa using Cfg.compile_fresh .res c x hs
+    simp [State.clear, h1, h2]
+  · cases hi
+
+/-- … so the main theorem holds for every accepted configuration tree. -/
+theorem query_is_failures_since_reset_of_config (c : Cfg) (s0 : State) (hi : c.install = some s0) (h : List Op) :
+    (s0.run h).query = s0.spec (sinceReset h) :=
+  query_is_failures_since_reset s0 (install_fresh c s0 hi) h
+
+/-- A reset returns EVERY verifier of the tree (both branches of every filter, every level of
+nesting) to its initial state: whatever happened before, the state is the initial one again. -/
+theorem reset_restores_initial (s0 : State) (hf : s0.clear = s0) (h : List Op) :
+    s0.run (h ++ [.reset]) = s0 := by
+  obtain ⟨hq, hs⟩ := fresh_tracks s0 hf
+  obtain ⟨hc, _, _⟩ := run_invariant s0 h s0 [] hf hq hs
+  rw [run_append]
+  simp only [State.run, List.foldl_cons, List.foldl_nil, State.step, State.reset, T.reset_eq_clear]
+  exact hc
+
+/-- After a reset the report is the initial report (only pingbacks that never occurred). -/
+theorem query_after_reset (s0 : State) (hf : s0.clear = s0) (h : List Op) :
+    (s0.run (h ++ [.reset])).query = s0.spec [] := by
+  rw [reset_restores_initial s0 hf h]
+  exact query_is_failures_since_reset s0 hf []
+
+/-- Requests addressed to the proxy's own API are never counted: removing an API exchange from
+any history, at any position, from any state, changes nothing. -/
+theorem api_requests_not_counted (s : State) (h1 h2 : List Op) (m : Msg) (ha : m.api = true) :
+    s.run (h1 ++ .traffic m :: h2) = s.run (h1 ++ h2) := by
+  rw [run_append, run_append]
+  simp only [State.run, List.foldl_cons, State.step, State.traffic, T.modify_api _ m ha]
+
+/-- A query does not change the state: querying twice gives the same report, and a query can
+be dropped from any history. -/
+theorem query_idempotent (s : State) (h1 h2 : List Op) :
+    s.run (h1 ++ .query :: h2) = s.run (h1 ++ h2) ∧ (s.run (h1 ++ [.query])).query = (s.run h1).query := by
+  constructor
+  · rw [run_append, run_append]; simp [State.run, State.step]
+  · rw [run_append]; simp [State.run, State.step]
+
+/-- Depth one: what a verify walk hands to its caller is, element by element, a plain error —
+never a nested `*MultiError` (so the handler emits one message per failure). -/
+theorem report_depth_one (s0 : State) (hf : s0.clear = s0) (h : List Op) (side : Side) :
+    ∀ e ∈ errsOf ((match side with | .req => (s0.run h).req | .res => (s0.run h).res).verify side), ∃ m, e = .one m := by
+  obtain ⟨hq, hs⟩ := fresh_tracks s0 hf
+  obtain ⟨_, tq, ts⟩ := run_invariant s0 h s0 [] hf hq hs
+  cases side
+  · simp only [T.verify_spec .req _ _ tq]; intro e he
+    obtain ⟨a, _, ha⟩ := List.mem_map.mp he; exact ⟨a, ha.symm⟩
+  · simp only [T.verify_spec .res _ _ ts]; intro e he
+    obtain ⟨a, _, ha⟩ := List.mem_map.mp he; exact ⟨a, ha.symm⟩
+
+/-- Instance for a single verifier: its report is, in order, the error of every non-API exchange
+since the last reset that does not meet the expectation. -/
+theorem single_verifier_report (k : Kind) (h : List Op) :
+    (State.run ⟨.ver k [], .nop⟩ h).query = ((sinceReset h).filter (fun m => !m.api)).filterMap (check .req k) := by
+  rw [query_is_failures_since_reset _ (by simp [State.clear, T.clear])]
+  simp [State.spec, T.spec, leafSpec]
+
+/-! ### non-vacuity: concrete witnesses (tests by evaluation, not part of the proof) -/
+
+/-- `header.Filter(X-A: 1)` with a `status.Verifier(200)` when true and, in the else branch, a group
+holding `status.Verifier(404)` and a `header.Verifier(X-B)`; default scopes. -/
+def exCfg : Cfg :=
+  .filter (.header (strBytes "X-A") (strBytes "1")) ⟨false, false, false⟩
+    (.leaf (.ver (.status 200)) ⟨false, false, false⟩)
+    (.group false ⟨false, false, false⟩
+      (.cons (.leaf (.ver (.status 404)) ⟨false, false, false⟩)
+        (.cons (.leaf (.ver (.header (strBytes "X-B") [])) ⟨false, false, false⟩) .nil)))
+
+def exMsg (api : Bool) (status : Nat) : Msg :=
+  { api := api, method := strBytes "GET", scheme := strBytes "http", host := strBytes "h", path := strBytes "/p",
+    query := [], frag := strBytes "m1", reqH := [], status := status, resH := [] }
+
+def exState : State :=
+  ⟨.filter (.header (strBytes "X-A") (strBytes "1")) .nop (.group false (.cons (.ver (.header (strBytes "X-B") []) []) .nil)),
+   .filter (.header (strBytes "X-A") (strBytes "1")) (.ver (.status 200) [])
+     (.group false (.cons (.ver (.status 404) []) (.cons (.ver (.header (strBytes "X-B") []) []) .nil)))⟩
+
+/-- The configuration is accepted and compiles to `exState` (hypothesis of `…_of_config` is satisfiable). -/
+example : exCfg.install = some exState := by rfl
+example : exState.clear = exState := by rfl
+
+/-- An exchange without `X-A` goes to the ELSE branch: three failures (request header, status, response header). -/
+example : ((exState.run [.traffic (exMsg false 200)]).query).length = 3 := by decide
+example : (exState.run [.traffic (exMsg false 200)]).query.head? =
+    some (strBytes "request(http://h/p#m1) header verify failure: got no header, want X-B header") := by decide
+/-- … and a reset clears the else branch too. -/
+example : (exState.run [.traffic (exMsg false 200), .reset]).query = [] := by decide
+/-- An API exchange is not counted. -/
+example : (exState.run [.traffic (exMsg true 200)]).query = [] := by decide
+/-- A pingback that never occurred is reported once, also right after a reset. -/
+example : (State.run ⟨.ping [] (strBytes "h2") [] [] true, .nop⟩ [.traffic (exMsg false 200), .reset]).query =
+    [strBytes "request(//h2): pingback never occurred"] := by decide
+
+end Martian.Props.C13
